@@ -82,7 +82,7 @@ impl Decoder for LinesCodec {
         else { (Dec::Error, rest_eof(b), c) }
     }
 
-//@extract file=actix-codec/src/lines.rs item="impl Decoder for LinesCodec / fn decode" ret=r props=C15,C13
+//@extract file=actix-codec/src/lines.rs item="impl Decoder for LinesCodec / fn decode" ret=r props=C15,C13 err_closures str_paths
 //@spec
     ensures
         // no LF buffered: nothing is produced and nothing is consumed   [C15,C13]
@@ -115,7 +115,7 @@ impl Decoder for LinesCodec {
                 proof { assert(!has_nl(src@)); }
 //@end
 
-//@extract file=actix-codec/src/lines.rs item="impl Decoder for LinesCodec / fn decode_eof" ret=r props=C15,C13
+//@extract file=actix-codec/src/lines.rs item="impl Decoder for LinesCodec / fn decode_eof" ret=r props=C15,C13 err_closures str_paths
 //@spec
     ensures
         // a buffered complete line is decoded exactly as by `decode`
@@ -133,17 +133,11 @@ impl Decoder for LinesCodec {
         !has_nl(old(src)@) && strip_cr(old(src)@).len() > 0 && !is_utf8(strip_cr(old(src)@)) ==> r is Err,
         // whatever is left holds no further line: the next call at end of stream ends the stream   [C13]
         !has_nl(old(src)@) ==> strip_cr(final(src)@).len() == 0 && !has_nl(final(src)@),
-//@insert after="_ => src.split(), };"
-                proof {
-                    let o = old(src)@;
-                    assert(buf@ =~= strip_cr(o));
-                    assert(src@ =~= rest_eof(o));
-                }
 //@end
 
 }
 
-//@extract file=actix-codec/src/lines.rs item="fn try_into_utf8" ret=r props=C15 closures=1 str_paths
+//@extract file=actix-codec/src/lines.rs item="fn try_into_utf8" ret=r props=C15 err_closures str_paths
 //@spec
     ensures
         r.is_ok() <==> is_utf8(buf@),
